@@ -305,4 +305,187 @@ theorem timing_lines_accepted_decoded_ieee_upper_catmull_partial (bs : List UInt
 
 end Maps
 
+/-! ## 4. non-vacuity and sharpness (kernel-evaluated) -/
+
+section Examples
+set_option maxRecDepth 100000
+
+/-- `SliderTailUpper` as a check (the span ends `k = 0 … n − 2`). -/
+def sliderTailUpperB (A dur : Float) (n : Int) : Bool :=
+  inLimitB (A + dur) &&
+    Scalar.le (A + (Scalar.ofInt n : Float) * (dur / (Scalar.ofInt n : Float))) (maxParseValue : Float) &&
+    (List.range (n.toNat - 1)).all (fun k =>
+      Scalar.le ((A + (Scalar.ofInt (k : Int) : Float) * (dur / (Scalar.ofInt n : Float))) + dur / (Scalar.ofInt n : Float))
+        (maxParseValue : Float))
+
+theorem sliderTailUpper_of_check {A dur : Float} {n : Int} (h : sliderTailUpperB A dur n = true) :
+    SliderTailUpper A dur n := by
+  unfold sliderTailUpperB at h
+  simp only [Bool.and_eq_true] at h
+  obtain ⟨⟨a1, a2⟩, a3⟩ := h
+  refine ⟨inLimit_of_check a1, a2, fun k hk0 hk2 => ?_⟩
+  have hm : k.toNat ∈ List.range (n.toNat - 1) := List.mem_range.mpr (by omega)
+  have := List.all_eq_true.mp a3 k.toNat hm
+  rw [Int.toNat_of_nonneg hk0] at this
+  exact this
+
+/-- the hypotheses of `sliderTailOk_of_upper` / `span_nonneg_float` on closed doubles: start `1000`, length `100`, velocity
+`0.28`, three spans. -/
+example : InLimit (1000 : Float) ∧ NotNeg (100 : Float) ∧ Scalar.lt (0 : Float) (0.28 : Float) = true ∧
+    SliderTailUpper (1000 : Float) ((Scalar.ofInt 3 : Float) * 100 / 0.28) 3 :=
+  ⟨inLimit_of_check (by decide +kernel), Or.inr (by decide +kernel), by decide +kernel,
+    sliderTailUpper_of_check (by decide +kernel)⟩
+
+example : SliderTailOk (1000 : Float) ((Scalar.ofInt 3 : Float) * 100 / 0.28) 3 :=
+  sliderTailOk_of_upper 1000 100 0.28 3 (inLimit_of_check (by decide +kernel)) (by decide) (by decide)
+    (Or.inr (by decide +kernel)) (by decide +kernel) (sliderTailUpper_of_check (by decide +kernel))
+
+/-- **the sign hypothesis `NotNeg d` cannot be dropped from `sliderTailOk_of_upper`** (nor from "every node time is within the
+limit"): start `0`, a NEGATIVE length `d = −2147483647`, velocity `13` (inside the decoded range `[velLo, velHi]`), `13` spans.
+The duration is `13·d/13 = −2147483647` exactly, the end `A + dur = −limit` is within the limit, the tail and all span ends
+are `≤ limit` — `SliderTailUpper` holds —, but the tail `A + 13·(dur/13) = −2147483647.0000005` (one ulp below `−limit`:
+`dur/13` is rounded) is NOT within the limit. `SliderTailUpper` bounds the tail and the span ends from above only; with a
+negative span duration the times decrease and can leave the range at the lower end. (Whether a decoded map can have a
+negative curve length is the open C01 question — only osu!-path-mode Catmull sliders could.) -/
+theorem upper_needs_sign :
+    ∃ (A d v : Float) (n : Int), InLimit A ∧ 1 ≤ n ∧ n < 2 ^ 31 ∧ Btw velLo velHi v ∧
+      SliderTailUpper A ((Scalar.ofInt n : Float) * d / v) n ∧
+      ¬ InLimit (A + (Scalar.ofInt n : Float) * (((Scalar.ofInt n : Float) * d / v) / (Scalar.ofInt n : Float))) ∧
+      ¬ SliderTailOk A ((Scalar.ofInt n : Float) * d / v) n := by
+  have hnot : ¬ InLimit ((0 : Float) + (Scalar.ofInt 13 : Float) *
+      (((Scalar.ofInt 13 : Float) * (-2147483647) / 13) / (Scalar.ofInt 13 : Float))) := by
+    intro h
+    have : Scalar.lt ((0 : Float) + (Scalar.ofInt 13 : Float) *
+      (((Scalar.ofInt 13 : Float) * (-2147483647) / 13) / (Scalar.ofInt 13 : Float))) (-(maxParseValue : Float)) = true := by
+      decide +kernel
+    rw [h.1] at this; cases this
+  refine ⟨0, -2147483647, 13, 13, inLimit_of_check (by decide +kernel), by decide, by decide,
+    Btw.of_le (by decide +kernel) (by decide +kernel) (by decide +kernel),
+    sliderTailUpper_of_check (by decide +kernel), hnot, fun ok => ?_⟩
+  exact hnot (nodeTime_inLimit_float _ _ _ (inLimit_of_check (by decide +kernel)) (by decide) (by decide) ok _
+    (Or.inr (Or.inr (Or.inl rfl))))
+
+section
+variable [Trig Float32]
+
+/-- `ObjEndUpper` as a check. -/
+def objEndUpperB (h : HitObject Float Float32) : Bool :=
+  match h.kind with
+  | .circle _ => true
+  | .spinner sp => endOkB h.startTime sp.duration
+  | .hold ho => endOkB h.startTime ho.duration
+  | .slider s =>
+    match curveDist s with
+    | .ok dist => sliderTailUpperB h.startTime ((Scalar.ofInt (s.repeatCount + 1) : Float) * dist / s.velocity) (s.repeatCount + 1)
+    | .error _ => true
+
+theorem objEndUpper_of_check (h : HitObject Float Float32) (hb : objEndUpperB h = true) : ObjEndUpper h := by
+  unfold objEndUpperB at hb
+  unfold ObjEndUpper
+  cases hk : h.kind with
+  | circle c => trivial
+  | spinner sp => rw [hk] at hb; exact endOk_of_check hb
+  | hold ho => rw [hk] at hb; exact endOk_of_check hb
+  | slider s =>
+    rw [hk] at hb
+    intro dist hd
+    simp only [hd] at hb
+    exact sliderTailUpper_of_check hb
+
+/-- `DistOk` as a check: the `clamp` assertion on the computed curve length of every slider. -/
+def distOkB (h : HitObject Float Float32) : Bool :=
+  match h.kind with
+  | .slider s =>
+    match curveDist s with
+    | .ok d => Scalar.le (0 : Float) (Scalar.min (100000 : Float) d)
+    | .error _ => true
+  | _ => true
+
+theorem distOk_of_check (hs : List (HitObject Float Float32)) (h : hs.all distOkB = true) : C01.DistOk hs := by
+  intro x hx s hk d hd
+  have := List.all_eq_true.mp h x hx
+  unfold distOkB at this
+  rw [hk] at this
+  simp only [hd] at this
+  exact this
+
+end
+
+/-- what the kernel computes for `evLine` (osu! mode, the two-span linear slider at `1000`): `DistOk` and `ObjEndUpper` hold. -/
+theorem evU_checked :
+    (decodeFinish (evFileOf evLine)).map (fun m => (m.general.mode, m.hitObjects.length, m.hitObjects.all distOkB,
+      m.hitObjects.all objEndUpperB)) = some (GameMode.osu, 1, true, true) := by
+  decide +kernel
+
+/-- **the hypotheses of `sliderTimes_upper_float_partial`, `collectedTimes_upper_float_partial`,
+`timing_lines_accepted_decoded_ieee_upper_partial` are satisfiable on a decoded osu!-mode map with a slider**, and their
+conclusions for it. -/
+theorem evU_accepted :
+    ∃ (st : BeatmapState Float Float32) (m : Beatmap Float Float32),
+      decodeBytes beatmapDecoder (evFileOf evLine) = .ok st ∧ st.finish = .ok m ∧ m.general.mode = .osu ∧
+      m.hitObjects.length = 1 ∧ C01.DistOk m.hitObjects ∧ ObjEndsUpper m ∧ SliderTailUpperAll m ∧ ObjEndsInLimit m ∧
+      SliderTimesInLimit m ∧ CollectedTimesInLimit m ∧ RepTimingMap IeeeRep64 m ∧
+      ∀ t, encodeTimingPoints m = .ok t →
+        ∃ cp, collectSamples m = .ok cp ∧ t = unlines (str "[TimingPoints]" :: (mapEntries m cp).map Entry.line) ∧
+          ∀ st : TimingPointsState Float Float32,
+            Accepts (fun s l => ((parseTimingPoints s l).2, (parseTimingPoints s l).1.isOk)) st
+              (((mapEntries m cp).map Entry.line).map trimEnd) := by
+  have hc := evU_checked
+  cases hm : decodeFinish (evFileOf evLine) with
+  | none => rw [hm] at hc; cases hc
+  | some m =>
+    rw [hm] at hc
+    simp only [Option.map_some, Option.some.injEq, Prod.mk.injEq] at hc
+    obtain ⟨c1, c2, c3, c4⟩ := hc
+    obtain ⟨st, h1, h2⟩ := decodeFinish_spec hm
+    have hd : C01.DistOk m.hitObjects := distOk_of_check _ c3
+    have he : ObjEndsUpper m := fun h hh => objEndUpper_of_check h (List.all_eq_true.mp c4 h hh)
+    refine ⟨st, m, h1, h2, c1, c2, hd, he, sliderTailUpper_of_objEnds he, objEndsInLimit_of_upper _ st m h1 h2 hd he,
+      sliderTimes_upper_float_partial _ st m h1 h2 hd (sliderTailUpper_of_objEnds he),
+      collectedTimes_upper_float_partial _ st m h1 h2 hd he, decoded_repTimingMap_ieee_upper_partial _ st m h1 h2 hd he,
+      fun t ht => ?_⟩
+    obtain ⟨cp, e1, e2, _, e4⟩ := timing_lines_accepted_decoded_ieee_upper_partial _ st m h1 h2 hd he t ht
+    exact ⟨cp, e1, e2, e4⟩
+
+/-- what the kernel computes for `evOverLine` (the same slider `647` ms before the limit): `DistOk` holds, `ObjEndUpper`
+FAILS, a collected time is beyond the limit. -/
+theorem evOverU_checked :
+    (decodeFinish (evFileOf evOverLine)).map (fun m => (m.general.mode, m.hitObjects.length, m.hitObjects.all distOkB,
+      m.hitObjects.any objEndUpperB, collectedInLimitB m)) = some (GameMode.osu, 1, true, false, false) := by
+  decide +kernel
+
+/-- **the upper-bound hypothesis is needed**: the slider near the limit decodes and finalises with `DistOk`, its tail is beyond
+the parse limit: `ObjEndsUpper` fails — and so does `CollectedTimesInLimit`. -/
+theorem evOverU_not_collectedTimes :
+    ∃ (st : BeatmapState Float Float32) (m : Beatmap Float Float32),
+      decodeBytes beatmapDecoder (evFileOf evOverLine) = .ok st ∧ st.finish = .ok m ∧ m.general.mode = .osu ∧
+      m.hitObjects.length = 1 ∧ C01.DistOk m.hitObjects ∧ ¬ CollectedTimesInLimit m ∧ ¬ ObjEndsUpper m := by
+  have hc := evOverU_checked
+  cases hm : decodeFinish (evFileOf evOverLine) with
+  | none => rw [hm] at hc; cases hc
+  | some m =>
+    rw [hm] at hc
+    simp only [Option.map_some, Option.some.injEq, Prod.mk.injEq] at hc
+    obtain ⟨c1, c2, c3, _, c5⟩ := hc
+    obtain ⟨st, h1, h2⟩ := decodeFinish_spec hm
+    have hd : C01.DistOk m.hitObjects := distOk_of_check _ c3
+    have hnot : ¬ CollectedTimesInLimit m := by
+      intro hct
+      unfold collectedInLimitB at c5
+      cases hca : collectAll m m.hitObjects [] with
+      | error e => rw [hca] at c5; cases c5
+      | ok pts =>
+        rw [hca] at c5
+        have hall : pts.all (fun (p : SamplePoint Float) => inLimitB p.time) = true := by
+          apply List.all_eq_true.mpr
+          intro p hp
+          obtain ⟨a, b, c⟩ := hct pts hca p hp
+          unfold inLimitB
+          rw [a, b, c]; rfl
+        simp only [] at c5
+        rw [hall] at c5; cases c5
+    exact ⟨st, m, h1, h2, c1, c2, hd, hnot, fun he => hnot (collectedTimes_upper_float_partial _ st m h1 h2 hd he)⟩
+
+end Examples
+
 end Rosu.C04
